@@ -11,6 +11,7 @@ import (
 	"encoding/json"
 	"fmt"
 	"math"
+	"math/big"
 	"reflect"
 	"strings"
 	"time"
@@ -28,6 +29,25 @@ type bytesPlan struct {
 	Hostile          []map[string]any `json:"hostile"`
 	Nesting          []map[string]any `json:"nesting"`
 	BigSizes         []int            `json:"bigSizes"`
+	IntBoundaries    []string         `json:"intBoundaries"`
+	LenBoundaries    []int            `json:"lenBoundaries"`
+}
+
+// intNode encodes a decimal string in -2^64 .. 2^64-1 as a CBOR integer node (preferred encoding).
+func intNode(dec string) *cborx.Node {
+	n, ok := new(big.Int).SetString(dec, 10)
+	if !ok {
+		panic("intNode " + dec)
+	}
+	e := &cborx.Enc{}
+	if n.Sign() >= 0 {
+		e.Uint(n.Uint64())
+	} else {
+		m := new(big.Int).Neg(n)
+		m.Sub(m, big.NewInt(1))
+		e.Nint(m.Uint64())
+	}
+	return rawNode(e.Bytes())
 }
 
 type bytesEv struct {
@@ -541,6 +561,30 @@ func init() {
 						allNodes(c, &cn)
 						*cn[ni] = *replacement(r, cn[ni], cc)
 						present(sd.format, "replace:"+r, tg.wrap(encTree(c)))
+					}
+					// same-type boundary values
+					sameType := func(kind string, nn *cborx.Node) {
+						c := cloneNode(tg.root)
+						var cn []*cborx.Node
+						allNodes(c, &cn)
+						*cn[ni] = *nn
+						present(sd.format, kind, tg.wrap(encTree(c)))
+					}
+					switch tg.nodes[ni].Major {
+					case 0, 1:
+						for _, v := range plan.IntBoundaries {
+							sameType("boundary:int", intNode(v))
+						}
+					case 2, 3:
+						for _, ln := range plan.LenBoundaries {
+							e := &cborx.Enc{}
+							if tg.nodes[ni].Major == 2 {
+								e.Bstr(cc.bytes(ln, 1))
+							} else {
+								e.Tstr(strings.Repeat("7", ln))
+							}
+							sameType("boundary:len", rawNode(e.Bytes()))
+						}
 					}
 					// container edits
 					if tg.nodes[ni].Major == 4 || tg.nodes[ni].Major == 5 {
